@@ -67,11 +67,11 @@ def run(ctx):
     f = ctx.fn("darling_core::error::Error::multiple")
     if f:
         for blk, i, st in ctx.find_aggregates(f, r"ErrorKind$", "Multiple"):
-            ctx.requires("C07.who.multiple-nonempty", f, blk, "ErrorKind::Multiple", [r"len\(a1\)=\('not-in', \(0, 1\)\)"])
+            ctx.requires("C07.who.multiple-nonempty", f, blk, "ErrorKind::Multiple", [("ne", r"^len\(a1\)$", 0), ("ne", r"^len\(a1\)$", 1)])
     f = ctx.fn("darling_core::error::Accumulator::finish_with")
     if f:
         for blk, t in ctx.find_calls(f, r"^darling_core::error::Error::multiple$"):
-            ctx.requires("C07.who.multiple-nonempty", f, blk, "multiple(errors)", [r"is_empty\(.*\)=False"])
+            ctx.requires("C07.who.multiple-nonempty", f, blk, "multiple(errors)", [("ne", r"^len\(.*\)$", 0)])
     callers = sorted({b.key for b in nontest if not b.derived and ctx.find_calls(b, r"^darling_core::error::Error::multiple$")})
     ctx.ob("C07.who.multiple-callers", "darling_core::error::Error::multiple", "callers",
            set(callers) <= {"darling_core::error::Accumulator::finish_with", "darling_core::error::Error::flatten"}, "called from %s" % callers)
